@@ -604,8 +604,8 @@ func c18RunCluster(in c18Input) (Case, error) {
 					nl++
 				}
 			}
-			views = append(views, fmt.Sprintf("{| v_t0 := %s; v_items := %s; v_tau := %s; v_obs := %s; v_L := %s; v_T0 := %s; v_d := %s |}",
-				cq.Z(in.T0), cq.List(nd.items), cq.Z(now), obs, cq.List(L), cq.Z(lastChange), cq.Z(net.maxDelay)))
+			views = append(views, fmt.Sprintf("{| q_node := %s; q_n := %s; q_tau := %s; q_obs := %s; q_L := %s; q_T0 := %s; q_d := %s |}",
+				cq.Nat(o.I), cq.Nat(len(nd.items)), cq.Z(now), obs, cq.List(L), cq.Z(lastChange), cq.Z(net.maxDelay)))
 			human = append(human, fmt.Sprintf("t=%d node%d GetPeers = %v (live nodes: %d, last change t=%d)", now-in.T0, o.I+1, peers, nl, lastChange-in.T0))
 			bound := lastChange + net.maxDelay + c18TTL
 			if now > bound && c18IMax+net.maxDelay <= c18TTL {
@@ -623,7 +623,11 @@ func c18RunCluster(in c18Input) (Case, error) {
 			return Case{}, fmt.Errorf("bad op %q", o.Op)
 		}
 	}
-	coq := cq.App("CCluster", cq.ListZ(intervals), cq.List(views))
+	var nodeItems []string
+	for _, nd := range nodes {
+		nodeItems = append(nodeItems, cq.List(nd.items))
+	}
+	coq := cq.App("CCluster", cq.Z(in.T0), cq.ListZ(intervals), cq.List(nodeItems), cq.List(views))
 	var tl []string
 	for t := range tags {
 		tl = append(tl, t)
